@@ -404,17 +404,66 @@ theorem preWorking_tstate (p : Params) (s : St) : (preWorking m p s).tstate = s.
 theorem preWorking_cstate (p : Params) (s : St) : (preWorking m p s).cstate = s.live.cstate := by
   unfold preWorking; split <;> simp
 
+/-- `check_state(WORKING)` under the guard of `stepBody`: it runs on working steps and, with the
+flag set, on project absence steps; otherwise nothing starts -/
+def chkWorkingIf (b : Bool) (m : Model) (l : Live) : Live := if b then chkWorking m l else l
+
+@[simp] theorem chkWorkingIf_true (l : Live) : chkWorkingIf true m l = chkWorking m l := rfl
+@[simp] theorem chkWorkingIf_false (l : Live) : chkWorkingIf false m l = l := rfl
+
+/-- the guard of `check_state(WORKING)` in `stepBody` (`= activeAt p s.time`) -/
+def startGuard (p : Params) (s : St) : Bool := !(p.absence.contains s.time) || p.autoFlag
+
+theorem startGuard_of_working (p : Params) (s : St) (h : p.absence.contains s.time = false) :
+    startGuard p s = true := by unfold startGuard; rw [h]; rfl
+
+theorem startGuard_of_flag (p : Params) (s : St) (h : p.autoFlag = true) :
+    startGuard p s = true := by simp [startGuard, h]
+
+theorem startGuard_false (p : Params) (s : St) (h : startGuard p s = false) :
+    p.absence.contains s.time = true ∧ p.autoFlag = false := by
+  simpa [startGuard] using h
+
+theorem chkWorkingIf_mono (b : Bool) (l : Live) : Mono l.tstate (chkWorkingIf b m l).tstate := by
+  cases b
+  · exact Mono.refl _
+  · exact chkWorking_mono m l
+
+@[simp] theorem chkWorkingIf_cstate (b : Bool) (l : Live) :
+    (chkWorkingIf b m l).cstate = l.cstate := by
+  cases b
+  · rfl
+  · exact chkWorking_cstate m l
+
 theorem stepBody_live (p : Params) (s : St) :
     (stepBody m p s).live =
       perform m (!(p.absence.contains s.time)) p.autoFlag
-        (compCheck m (chkWorking m (preWorking m p s))) := rfl
+        (compCheck m (chkWorkingIf (startGuard p s) m (preWorking m p s))) := rfl
+
+/-- on a working step, and on every step when the flag is set, `check_state(WORKING)` runs -/
+theorem stepBody_live_active (p : Params) (s : St) (h : startGuard p s = true) :
+    (stepBody m p s).live =
+      perform m (!(p.absence.contains s.time)) p.autoFlag
+        (compCheck m (chkWorking m (preWorking m p s))) := by
+  rw [stepBody_live, h]; rfl
+
+/-- at a project absence step with the flag off nothing starts -/
+theorem stepBody_live_inactive (p : Params) (s : St) (h : startGuard p s = false) :
+    (stepBody m p s).live =
+      perform m (!(p.absence.contains s.time)) p.autoFlag (compCheck m (preWorking m p s)) := by
+  rw [stepBody_live, h]; rfl
 
 theorem stepBody_tstate (p : Params) (s : St) :
-    (stepBody m p s).live.tstate = (chkWorking m (preWorking m p s)).tstate := rfl
+    (stepBody m p s).live.tstate =
+      (chkWorkingIf (startGuard p s) m (preWorking m p s)).tstate := rfl
+
+theorem stepBody_tstate_inactive (p : Params) (s : St) (h : startGuard p s = false) :
+    (stepBody m p s).live.tstate = s.live.tstate := by
+  rw [stepBody_tstate, h, chkWorkingIf_false, preWorking_tstate]
 
 theorem stepBody_mono (p : Params) (s : St) : Mono s.live.tstate (stepBody m p s).live.tstate := by
   rw [stepBody_tstate]
-  have h := chkWorking_mono m (preWorking m p s)
+  have h := chkWorkingIf_mono m (startGuard p s) (preWorking m p s)
   rwa [preWorking_tstate] at h
 
 end blocks
@@ -591,8 +640,10 @@ theorem DepInv_updated (s : St) (h : DepInv m s.live.tstate) : DepInv m (updated
 theorem DepInv_stepBody (p : Params) (s : St) (h : DepInv m s.live.tstate) :
     DepInv m (stepBody m p s).live.tstate := by
   rw [stepBody_tstate]
-  apply DepInv_chkWorking
-  rw [preWorking_tstate]; exact h
+  cases startGuard p s
+  · rw [chkWorkingIf_false, preWorking_tstate]; exact h
+  · apply DepInv_chkWorking
+    rw [preWorking_tstate]; exact h
 
 end dep
 
@@ -729,8 +780,8 @@ theorem CompInv_stepBody (p : Params) (s : St) (h : CompInv m s.live) :
   rw [stepBody_live]
   have h1 : CompInv m (preWorking m p s) :=
     CompInv_of_eq m h (preWorking_tstate m p s) (preWorking_cstate m p s)
-  have h2 : CompInv m (compCheck m (chkWorking m (preWorking m p s))) :=
-    CompInv_compCheck m h1 (chkWorking_mono m _) (chkWorking_cstate m _)
+  have h2 : CompInv m (compCheck m (chkWorkingIf (startGuard p s) m (preWorking m p s))) :=
+    CompInv_compCheck m h1 (chkWorkingIf_mono m _ _) (chkWorkingIf_cstate m _ _)
   exact CompInv_of_eq m h2 rfl rfl
 
 /-- component states never go back to NONE -/
@@ -750,7 +801,7 @@ theorem stepBody_noBack (p : Params) (s : St) :
   intro c h
   rw [stepBody_live, perform_cstate]
   apply compCheck_ne_none
-  rw [chkWorking_cstate, preWorking_cstate]; exact h
+  rw [chkWorkingIf_cstate, preWorking_cstate]; exact h
 
 
 end comp
@@ -944,7 +995,8 @@ theorem stepBody_tState (m : Model) (p : Params) (s : St) (t : Nat) (ht : t < m.
   have htime : (stepBody m p s).time - 1 = s.time := by simp [stepBody]
   rw [htime]
   have : (stepBody m p s).logs.tState t =
-      (cost m (workingAt p s.time) (compCheck m (chkWorking m (preWorking m p s))) s.logs).tState t ++
+      (cost m (workingAt p s.time)
+        (compCheck m (chkWorkingIf (startGuard p s) m (preWorking m p s))) s.logs).tState t ++
         [showT (workingAt p s.time) ((stepBody m p s).live.tstate t)] :=
     record_tState m _ _ _ t ht
   rw [this]; simp
